@@ -859,6 +859,10 @@ impl StateMachine for RocksDBStateMachine {
                         let lease =
                             self.lease.as_ref().expect("lease always initialized by NodeBuilder");
                         lease.register(key.clone(), *ttl);
+                    } else if let Some(ref lease) = self.lease {
+                        // A write without TTL cancels the TTL of an earlier write: the new
+                        // value must not be removed when the old deadline passes.
+                        lease.unregister(key);
                     }
 
                     results.push(ApplyResult::success(entry.index));
@@ -890,6 +894,11 @@ impl StateMachine for RocksDBStateMachine {
 
                     if cas_success {
                         batch.put_cf(&cf, key, new_value);
+                        // CAS writes carry no TTL: the swapped-in value is not subject to the
+                        // TTL of the value it replaced.
+                        if let Some(ref lease) = self.lease {
+                            lease.unregister(key);
+                        }
                     }
 
                     results.push(if cas_success {
